@@ -72,6 +72,9 @@ def pattern_menu(nodes, r):
         M("//...", lambda cur: ("", "", True)),
         M("//a/...", lambda cur: ("a", "", True)),
         M("//a/...:x", lambda cur: ("a", "x", True)),
+        M("//...:x", lambda cur: ("", "x", True)),            # root-recursive WITH a name filter
+        M("//...:x_test", lambda cur: ("", "x_test", True)),
+        M("//...:all", lambda cur: ("", "all", True)),
         M("//a:all", lambda cur: ("a", "all", False)),
         M("//a", lambda cur: ("a", "a", False)),
         M("//a/b", lambda cur: ("a/b", "b", False)),
